@@ -2,6 +2,7 @@ package dart
 
 import (
 	"fmt"
+	"go/types"
 	"strings"
 
 	an "github.com/benoitkugler/gomacro/analysis"
@@ -123,8 +124,17 @@ func jsonForMap(ma *an.Map) string {
 	// JSON map keys are always string, but it is very convenient
 	// to support int keys (for IDs)
 	keyFromJson := "k as " + keyName
-	if keyName == "int" {
+	if basic, isBasic := ma.Key.Type().Underlying().(*types.Basic); isBasic && basic.Info()&types.IsInteger != 0 {
+		// also for named integer types (typedef to int)
 		keyFromJson = "int.parse(k)"
+	}
+	if enum, isEnum := ma.Key.(*an.Enum); isEnum {
+		// the keys are the JSON values of the enum, written as strings
+		if enum.IsInteger() {
+			keyFromJson = keyID + "FromJson(int.parse(k))"
+		} else {
+			keyFromJson = keyID + "FromJson(k)"
+		}
 	}
 
 	name, id := typeName(ma), jsonID(ma)
